@@ -27,6 +27,31 @@ CLAIMED = {
              "is defined and return exactly that value with the very classes named in the annotation.",
         note="Leaf constructors are the Python standard library (Ctor table), never mashumaro; inputs are restricted to string-keyed JSON-like data so that the documented behaviour is determined.",
         tech="TLA+ reference deserializer evaluated by TLC as oracle (replay + trace validation)", ref="6 C03"),
+    "C05": dict(
+        text="FromDict(C, cx, d) in TLA+ returns Ok(instance) or exactly one documented error term (ValueError / Missing(f,C) / Invalid(f, raw value, C) / Extra(keys, C)); "
+             "TLC checks Documented and FirstDecides (the first field in declaration order that is missing or invalid decides) on the model and exports every "
+             "single and double fault of a valid input, non-mappings, and 43 foreign inputs for every holder class of the grammar; the real exception type and "
+             "attributes must equal the expected term (anything else, e.g. AttributeError/NameError, maps to <<other>> which no expectation equals), a returned "
+             "instance where an error is expected is 'silently accepted', and the input is deep-compared before/after. Random dataclasses with mutated wire forms are judged by TLC (CoreTrace).",
+        note="Discriminator errors (MissingDiscriminatorError / SuitableVariantNotFoundError) are exercised in C12's check. Inputs are string-keyed JSON-like values.",
+        tech="TLA+ reference FromDict as oracle; exhaustive fault enumeration by TLC replayed into the code + trace validation", ref="6 C05"),
+    "C07": dict(
+        text="TLC enumerates every well-formed dataclass layout (<=3 fields quick, <=4 thorough, 9 field kinds, flat / split over base+subclass / default overridden in the subclass) "
+             "x every absent/value/null assignment of the keys, proves DefaultIffAbsent on the reference FromDict, and every state is replayed: attributes compared, "
+             "and the fields the spec marks as factory-made (FreshIdx) are compared by identity between two decodes.",
+        note="Exhaustive in the stated bound. InitVar/ClassVar members are not in the layout grammar yet (init=False is).",
+        tech="exhaustive TLC enumeration of layouts x key subsets replayed into the code", ref="6 C07"),
+    "C08": dict(
+        text="PackDC/EffOpt/NestCx in TLA+ define PROJECT(o, plain); TLC proves ProjectionOnly and NoValueDropped on the model for the whole option lattice "
+             "({unset,F,T}^3 Config x sort_keys x 2^3 flags x nested opt-in x keyword arguments x call dialects; Config.dialect axis in thorough) on 3 instances and "
+             "every state is replayed: list(to_dict(**kwargs).items()) must equal the expected pairs including order.",
+        note="A nested class that enabled a keyword flag receives the outer call's effective value of that keyword (README: the argument is passed to nested classes with the same flag) -- this reading is fixed in DESIGN.md.",
+        tech="exhaustive TLC enumeration of the option lattice replayed into the code", ref="6 C08"),
+    "C09": dict(
+        text="KeyModel (FAlias, FieldKey, AllowedKeys) in TLA+; TLC proves ReadsOnlyAllowed, ExtraExact, AliasWins and enumerates all alias-source subsets x option pairs x all 2^8 key subsets "
+             "(33,792 inputs); every one is replayed and the result / ExtraKeysError.extra_keys / MissingField.field_name compared.",
+        note="Exhaustive for two fields and the three alias sources; class-level discriminator keys are covered in C12's check.", 
+        tech="exhaustive TLC enumeration replayed into the code", ref="6 C09"),
 }
 REASON_PENDING = "check not built yet in this round (construction order DESIGN.md 11); not claimed"
 
